@@ -23,7 +23,7 @@ func topkElems(v interface{}) []heapDoc {
 	out := make([]heapDoc, rv.Len())
 	for i := 0; i < rv.Len(); i++ {
 		e := rv.Index(i)
-		out[i] = heapDoc{V: e.Field(0).String(), F: e.Field(1).Uint()}
+		out[i] = heapPair(e)
 	}
 	return out
 }
